@@ -1,7 +1,7 @@
 (* C03 - Every caveat must clear every request; anything unclear denies.
    Statements restated from Proofs/ClearProofs.v, Proofs/ErrFacts.v (closed by [exact]). *)
 From Coq Require Import List Bool NArith ZArith String Permutation.
-From Mac Require Import Model.Err Model.Caveat Model.Access Model.Prohibits Proofs.ErrFacts Proofs.ClearProofs.
+From Mac Require Import Model.Err Model.Caveat Model.Access Model.Prohibits Proofs.ErrFacts Proofs.ClearProofs Proofs.ValidateSplit.
 Import ListNotations.
 
 Theorem validate_iff :
@@ -109,6 +109,28 @@ Theorem missing_info_validate_denies_any :
     rs_field_missing c f = Some true -> validate [c] [AFlyio f] <> None.
 Proof. exact missing_info_validate_denies_any_l. Qed.
 
+(* clearing distributes over both lists (Proofs/ValidateSplit.v): no caveat is excused by its position or neighbours,
+   no request by the ones asked with it; appending caveats or requests never turns a denial into a clearance *)
+Theorem validate_requests_split :
+    forall (cs : list cav) (accs accs' : list access),
+    validate cs (accs ++ accs') = None <-> validate cs accs = None /\ validate cs accs' = None.
+Proof. exact validate_accs_app_iff_l. Qed.
+
+Theorem validate_caveats_split :
+    forall (cs cs' : list cav) (accs : list access),
+    validate (cs ++ cs') accs = None <-> validate cs accs = None /\ validate cs' accs = None.
+Proof. exact validate_cavs_app_iff_l. Qed.
+
+Theorem denial_survives_attenuation :
+    forall (cs cs' : list cav) (accs : list access),
+    validate cs accs <> None -> validate (cs ++ cs') accs <> None.
+Proof. exact validate_attenuate_l. Qed.
+
+Theorem denial_survives_more_requests :
+    forall (cs : list cav) (accs accs' : list access),
+    validate cs accs <> None -> validate cs (accs ++ accs') <> None.
+Proof. exact validate_more_requests_l. Qed.
+
 Print Assumptions validate_iff.
 Print Assumptions validate_err_union.
 Print Assumptions validate_nonnil_iff.
@@ -121,3 +143,7 @@ Print Assumptions missing_info_denies.
 Print Assumptions missing_info_denies_each.
 Print Assumptions missing_info_denies_other.
 Print Assumptions missing_info_validate_denies_any.
+Print Assumptions validate_requests_split.
+Print Assumptions validate_caveats_split.
+Print Assumptions denial_survives_attenuation.
+Print Assumptions denial_survives_more_requests.
